@@ -517,10 +517,18 @@ type c06Lvps struct {
 	h     *isaac.LastVoteproofsHandler
 	run   map[c06Pos]struct{} // positions taken since the last allowed backward move
 	taken map[c06Pos]struct{} // positions ever taken
+	// model is the position of the last update the store took as new (IsNew and Set both true), kept by the harness
+	// without reading Last().Cap(): the statement speaks about the sequence of accepted updates, so this sequence is
+	// judged on its own and the store's reported position has to follow it.
+	model c06Pos
+	took  bool // the last step was taken as a new position
 }
 
 func c06NewLvps() *c06Lvps {
-	return &c06Lvps{h: isaac.NewLastVoteproofsHandler(), run: map[c06Pos]struct{}{}, taken: map[c06Pos]struct{}{}}
+	return &c06Lvps{
+		h: isaac.NewLastVoteproofsHandler(), run: map[c06Pos]struct{}{}, taken: map[c06Pos]struct{}{},
+		model: c06Pos{Zero: true},
+	}
 }
 
 func (x *c06Lvps) pos() c06Pos { return c06PosOfVoteproof(x.h.Last().Cap()) }
@@ -539,15 +547,39 @@ func (x *c06Lvps) step(t ev.TB, r *ev.Rec, cand c06Pos, hist func() string) (evs
 		}
 	}
 
+	if isnew || isnew2 {
+		// ... and against the last update the store itself accepted, whatever Cap() reports now
+		if ok, why := c06Allowed(x.model, cand, true); !ok {
+			r.Violation(t, "lvps-isnew-"+why, "LastVoteproofs IsNew(%v)=%v/%v after [%s] although the last accepted update was %v (Cap() reports %v) (%s)", cand, isnew, isnew2, hist(), x.model, prev, why)
+		}
+	}
+
 	ret := x.h.Set(vp)
 	after := x.pos()
+	x.took = false
+
+	// the store took the voteproof as a new position (not a fill of a missing older voteproof, which is never "new")
+	if took := ret && (isnew || (after != prev && after == cand)); took {
+		model := x.model
+		x.model = cand
+		x.took = true
+
+		if ok, why := c06Allowed(model, cand, true); !ok {
+			r.Violation(t, "lvps-taken-"+why, "LastVoteproofsHandler.Set(%v)=true (IsNew=%v) after [%s]: the sequence of accepted updates goes %v -> %v (%s; Cap() reported %v before, %v after)", cand, isnew, hist(), model, cand, why, prev, after)
+		}
+
+		if after != cand {
+			// the judged-against position must be the update that was just accepted; a Cap() that stays at (or falls to) an
+			// older voteproof lets the same position be taken again and earlier rounds be taken without a suffrage confirm
+			evs |= c06EvShadowed
+
+			r.Violation(t, "lvps-cap-stale-voteproof", "LastVoteproofsHandler.Set(%v)=true (IsNew=%v) after [%s]: the update was accepted as new but Last().Cap() reports %v (before: %v), not the accepted position", cand, isnew, hist(), after, prev)
+		}
+	}
 
 	if after == prev {
-		switch {
-		case !prev.Zero && cand.H < prev.H:
+		if !prev.Zero && cand.H < prev.H {
 			evs |= c06EvLowerRejected
-		case ret && isnew:
-			evs |= c06EvShadowed
 		}
 
 		if ret && !isnew {
@@ -653,6 +685,112 @@ func c06LvpsAll(t ev.TB, r *ev.Rec, ps []c06Pos, n int, mine func(int) bool, cnt
 	}
 }
 
+// c06RoundChangePrefixes: every prefix (length >= minLen) of the voteproof histories a node sees while height h goes
+// through up to `rounds` rounds, optionally after the ACCEPT majority of h-1. A round ends without a block in one of
+// the ways consensus can end it: INIT draw; INIT majority then ACCEPT draw; INIT majority, suffrage-confirm INIT
+// majority, ACCEPT draw; ACCEPT draw alone (the INIT voteproof never reached this node). The next round's INIT follows.
+func c06RoundChangePrefixes(h int64, rounds uint64, minLen int) [][]c06Pos {
+	var out [][]c06Pos
+
+	seen := map[string]struct{}{}
+
+	add := func(seq []c06Pos) {
+		if len(seq) < minLen {
+			return
+		}
+
+		k := c06Seq(seq)
+		if _, found := seen[k]; found {
+			return
+		}
+
+		seen[k] = struct{}{}
+		out = append(out, append([]c06Pos(nil), seq...))
+	}
+
+	var walk func(seq []c06Pos, rd uint64)
+
+	walk = func(seq []c06Pos, rd uint64) {
+		if rd >= rounds {
+			return
+		}
+
+		idraw := c06Pos{H: h, R: rd, St: base.StageINIT}
+		imaj := c06Pos{H: h, R: rd, St: base.StageINIT, Maj: true}
+		isc := c06Pos{H: h, R: rd, St: base.StageINIT, Maj: true, SC: true}
+		adraw := c06Pos{H: h, R: rd, St: base.StageACCEPT}
+
+		for _, round := range [][]c06Pos{
+			{idraw},
+			{imaj, adraw},
+			{imaj, isc, adraw},
+			{adraw},
+		} {
+			cur := seq
+
+			for _, p := range round {
+				cur = append(cur[:len(cur):len(cur)], p)
+				add(cur)
+			}
+
+			walk(cur, rd+1)
+		}
+	}
+
+	walk(nil, 0)
+	walk([]c06Pos{{H: h - 1, R: 0, St: base.StageACCEPT, Maj: true}}, 0)
+
+	return out
+}
+
+// c06LvpsRoundChanges: after every round-change prefix, every probe update (and every second probe; in the quick tier
+// only behind a first probe that the store accepted) on a fresh LastVoteproofsHandler.
+func c06LvpsRoundChanges(t ev.TB, r *ev.Rec, prefixes [][]c06Pos, ps []c06Pos, allPairs bool, mine func(int) bool, cnt *c06Counters) {
+	run := func(prefix []c06Pos, probes ...c06Pos) (evs uint, tookFirst bool) {
+		seq := append(prefix[:len(prefix):len(prefix)], probes...)
+		x := c06NewLvps()
+
+		for i := range seq {
+			i := i
+
+			evs |= x.step(t, r, seq[i], func() string { return c06Seq(seq[:i]) })
+
+			if i == len(prefix) {
+				tookFirst = x.took
+			}
+		}
+
+		return evs, tookFirst
+	}
+
+	for i, prefix := range prefixes {
+		if !mine(i) {
+			continue
+		}
+
+		for _, a := range ps {
+			evs, took := run(prefix, a)
+
+			if !allPairs {
+				cnt.add(evs)
+			}
+
+			if !took && !allPairs {
+				continue
+			}
+
+			for _, b := range ps {
+				evs, _ := run(prefix, a, b)
+				cnt.add(evs)
+
+				if c06Nontrivial(evs) && evs&c06EvBackward != 0 && len(cnt.sample) < 1 && len(prefix) >= 5 {
+					cnt.sample = append(cnt.sample, map[string]any{"holder": "last-voteproofs(round changes)", "sequence": c06Seq(append(prefix[:len(prefix):len(prefix)], a, b))})
+				}
+			}
+		}
+	}
+}
+
 // ---- rapid: long sequences over a larger domain through both holders
 
 func c06DrawCand(rt *rapid.T, cur c06Pos, maxH int64, maxR uint64) c06Pos {
@@ -686,9 +824,12 @@ func c06DrawCand(rt *rapid.T, cur c06Pos, maxH int64, maxR uint64) c06Pos {
 	maj := rapid.Bool().Draw(rt, "maj")
 
 	switch rapid.IntRange(0, 11).Draw(rt, "kind") {
-	case 0: // next stage, same point
-		if cur.St == base.StageINIT {
+	case 0: // what consensus does next: INIT -> ACCEPT of the point; ACCEPT majority -> next height; ACCEPT draw -> next round
+		switch {
+		case cur.St == base.StageINIT:
 			return norm(c06Pos{H: cur.H, R: cur.R, St: base.StageACCEPT, Maj: maj})
+		case !cur.Maj:
+			return norm(c06Pos{H: cur.H, R: cur.R + 1, St: base.StageINIT, Maj: maj})
 		}
 
 		return norm(c06Pos{H: cur.H + 1, St: base.StageINIT, Maj: maj})
@@ -724,8 +865,9 @@ func TestC06(t *testing.T) {
 		"A exhaustive: every ordered pair (last incl. none, candidate) over 3 heights x 3 rounds through LastPoint.Before, IsNewBallot, IsNewVoteproofbyPoint, IsNewVoteproof(real voteproof); " +
 		"B exhaustive: every accepted update sequence up to length 2 (quick) / 3 (thorough), and 3 / 4 over 2 heights x 2 rounds, through a real Ballotbox (SetLastPoint and SetLastPointFromVoteproof) plus every ballot offered to VoteSignFact in every reached state; " +
 		"C exhaustive: every sequence of 3 (quick) / 4 (thorough; 5 over 2 heights x 2 rounds) Set calls on a real LastVoteproofsHandler, position read from Last().Cap(); " +
+		"E exhaustive: every prefix (3 or more voteproofs; 4 or more in thorough) of the histories of one height going through up to 3 rounds (each round ended by INIT draw | INIT majority, ACCEPT draw | INIT majority, suffrage-confirm INIT, ACCEPT draw | ACCEPT draw alone; optionally behind the ACCEPT majority of the previous height), followed by every update and every second update (quick: second update only behind an accepted first one) on a real LastVoteproofsHandler; " +
 		"D rapid: sequences of 3..30 updates over 5 heights x 4 rounds fed to both holders, candidates drawn relative to the current position. " +
-		"Every move of a judged position is compared with the relation written from the statement. " +
+		"Every move of a judged position is compared with the relation written from the statement; for the LastVoteproofsHandler additionally the sequence of updates it accepted as new (IsNew and Set true) is judged by the same relation without reading Cap(), and Cap() must be the accepted update. " +
 		"non-trivial: the case contains an accepted backward (suffrage-confirm) move, a same-stage-point replacement, or a rejected lower-height input; " +
 		"exhaustive parts are distinct by construction, rapid cases by the sequence")
 	r.Floor(500)
@@ -735,7 +877,7 @@ func TestC06(t *testing.T) {
 		"positions are restricted to those NewLastPointFromVoteproof can produce (suffrage-confirm => INIT and majority)",
 		"safety only: nothing is demanded to be accepted",
 		"'never taken twice' is judged inside runs without an allowed backward (suffrage-confirm) move; a position taken again after such a move is counted as class retake-after-backward(flagged): the relation is memoryless, so the statement's own backward exception implies it",
-		"LastVoteproofsHandler.Set returning true while Last().Cap() stays put (fillMissing) is not a move of the position",
+		"LastVoteproofsHandler.Set returning true for a voteproof that IsNew refused, while Last().Cap() stays put (fillMissing), is not a move of the position; Set returning true for a voteproof that IsNew accepted is an accepted update and must become Last().Cap()",
 		"ForceSetLast (sync/handover reset) is outside the statement",
 	)
 
@@ -762,6 +904,8 @@ func TestC06(t *testing.T) {
 			{A(1, 0, false), A(1, 1, false), I(1, 2, false, false), I(1, 0, true, true)},                      // ... to ACCEPT(1,1)
 			{I(1, 0, true, false), A(1, 0, false), I(1, 0, true, true), A(1, 0, true)},                        // sc voteproof at the point of a drawn ACCEPT
 			{I(2, 0, true, false), A(1, 0, true), A(2, 0, false), I(2, 1, false, false), I(2, 0, true, true)}, // with a filled previous-height ACCEPT
+			{I(1, 0, true, false), A(1, 0, false), I(1, 1, true, false), I(1, 1, true, false), A(1, 0, true)}, // round change behind a stored ACCEPT draw: INIT(1,1) once, then nothing of round 0 without suffrage confirm
+			{A(1, 0, false), I(1, 1, false, false), A(1, 1, false), I(1, 2, true, false), I(1, 2, true, false), A(1, 1, true), A(1, 0, true)},
 		} {
 			cnt.add(c06LvpsSeq(t, r, seq))
 		}
@@ -926,6 +1070,26 @@ func TestC06(t *testing.T) {
 		return
 	}
 
+	// ---- E. last-voteproofs store behind round changes inside one height (draws), deeper than C reaches
+	t.Run("E-round-changes", func(t *testing.T) {
+		var cnt c06Counters
+
+		// sequences are longer than any of C (prefix >= 3 + probe(s) in quick, >= 4 + two probes in thorough)
+		prefixes := c06RoundChangePrefixes(2, 3, r.N(3, 4))
+		c06LvpsRoundChanges(t, r, prefixes, ps, r.Thorough(), r.Mine, &cnt)
+
+		cnt.flush(r, "E")
+		r.Extra("round_change_prefixes", len(prefixes))
+
+		for _, s := range cnt.sample {
+			r.Sample(s)
+		}
+	})
+
+	if t.Failed() {
+		return
+	}
+
 	// ---- D. rapid sequences through both holders
 	r.Checks(1500, 200000)
 	r.ShrinkTime(20 * time.Second)
@@ -943,10 +1107,14 @@ func TestC06(t *testing.T) {
 		var desc strings.Builder
 
 		for i := 0; i < n; i++ {
-			// follow one of the two holders
+			// follow one of the two holders, or the last update the store accepted
 			cur := lv.pos()
-			if rapid.Bool().Draw(rt, "followBox") {
+
+			switch rapid.IntRange(0, 3).Draw(rt, "follow") {
+			case 0, 1:
 				cur = c06PosOfLastPoint(box.LastPoint())
+			case 2:
+				cur = lv.model
 			}
 
 			cand := c06DrawCand(rt, cur, maxH, maxR)
